@@ -89,7 +89,7 @@ theorem lalr_error_position_in_input (toks : List Int) (fuel i : Nat)
     invariant describes again with a strictly smaller measure (so no input makes it spin) -/
 theorem lalr_step_progress {N : Nat} {s : St} {L : List Nat} (I : Inv genP genC N s L) {s' : St} {e : Event}
     (h : step genT s = .next s' e) : ∃ L', Inv genP genC N s' L' ∧ loopMeasure genC s' L' < loopMeasure genC s L := by
-  rcases step_spec gen_facts I with h1 | ⟨i, h1, _⟩ | ⟨s2, e2, L', h1, hI, hm⟩
+  rcases step_spec gen_facts I with h1 | ⟨i, h1, _⟩ | ⟨s2, e2, L', h1, hI, hm, _⟩
   · rw [show genT = genP.toTables from rfl, h1] at h; exact absurd h (by simp)
   · rw [show genT = genP.toTables from rfl, h1] at h; exact absurd h (by simp)
   · rw [show genT = genP.toTables from rfl, h1] at h
